@@ -45,39 +45,44 @@ def fileNames (env : Env) (f : Str) : Option (List Str) :=
   | some es => namesAll es
   | none => none
 
-/-- the assembled target sequence, in command-line order -/
-def assembled (env : Env) : List Item → Option (List Str)
+/-- the names every item contributes, concatenated in command-line order (`none`: some item is
+    outside the property) -/
+def collect (f : Item → Option (List Str)) : List Item → Option (List Str)
   | [] => some []
   | it :: its =>
-    let here : Option (List Str) := match it with
-      | .tgt e => names e
-      | .tfile f => fileNames env f
-      | _ => some []
-    match here, assembled env its with
+    match f it, collect f its with
     | some a, some b => some (a ++ b)
     | _, _ => none
+
+/-- what a target item contributes -/
+def tgtNames (env : Env) : Item → Option (List Str)
+  | .tgt e => names e
+  | .tfile f => fileNames env f
+  | _ => some []
+
+/-- what an exclusion item names -/
+def xclNames (env : Env) : Item → Option (List Str)
+  | .xcl e => names e
+  | .xfile f => fileNames env f
+  | _ => some []
+
+/-- the assembled target sequence, in command-line order -/
+def assembled (env : Env) (items : List Item) : Option (List Str) := collect (tgtNames env) items
 
 /-- every name some exclusion denotes -/
-def excluded (env : Env) : List Item → Option (List Str)
-  | [] => some []
-  | it :: its =>
-    let here : Option (List Str) := match it with
-      | .xcl e => names e
-      | .xfile f => fileNames env f
-      | _ => some []
-    match here, excluded env its with
-    | some a, some b => some (a ++ b)
-    | _, _ => none
+def excluded (env : Env) (items : List Item) : Option (List Str) := collect (xclNames env) items
 
-/-- does the host pass every filter?  `none`: the oracle's table lacks a pair -/
+/-- one filter's verdict on a host (`none`: the oracle's table lacks the pair) -/
+def passOne (env : Env) (h : Str) : Item → Option Bool
+  | .keep p => env.rematch p h
+  | .drop p => (env.rematch p h).map (!·)
+  | _ => some true
+
+/-- does the host pass every filter? -/
 def passes (env : Env) (h : Str) : List Item → Option Bool
   | [] => some true
   | it :: its =>
-    let here : Option Bool := match it with
-      | .keep p => env.rematch p h
-      | .drop p => (env.rematch p h).map (!·)
-      | _ => some true
-    match here, passes env h its with
+    match passOne env h it, passes env h its with
     | some a, some b => some (a && b)
     | _, _ => none
 
